@@ -15,7 +15,7 @@ func init() {
 	register(&Property{
 		ID:      "C02",
 		Engines: []string{"cfg"},
-		Explanation: "Inbound delivery, structural part: at each of the three read loops the data callback is guarded by n>0, receives the connection returned by that very read and the buffer re-sliced to [:n] of that read's count (O1); the loops agree on EINTR -> retry, EAGAIN -> leave, other error -> close and leave, short count -> leave, and on the per-event iteration bound (O2); the one-shot read task re-arms on every exit that did not close (O3); the synchronous loop pays every borrowed buffer back before the next borrow or exit (O4); the async gate: counter atomic-only, a task is submitted only when the increment returned 1, the over-count edge undoes its increment, the task returns only when the decrement returned 0 (O5); every buffer that reaches a kernel read is made with a provably positive length (O6); connsUnix has only its three writers and deleteConn's removal is identity-guarded (O7); the UDP session map is looked up and inserted with the same key, sessions are created and announced on the miss edge only (O8). Engine.Start publishes every engine field the poller loops read before it starts the first poller goroutine (O9); the one-shot re-arm registers with the kernel regardless of the isWAdded flag (O10); the count and error of the kernel read travel unchanged through readStream/readUDP, doRead, Read and ReadAndGetConn (O11).",
+		Explanation: "Inbound delivery, structural part: at each of the three read loops the data callback is guarded by n>0, receives the connection returned by that very read and the buffer re-sliced to [:n] of that read's count (O1); the loops agree on EINTR -> retry, EAGAIN -> leave, other error -> close and leave, short count -> leave, and on the per-event iteration bound (O2); the one-shot read task re-arms on every exit that did not close (O3); the synchronous loop pays every borrowed buffer back before the next borrow or exit (O4); the async gate: counter atomic-only, a task is submitted only when the increment returned 1, the over-count edge undoes its increment, the task returns only when the decrement returned 0 (O5); every buffer that reaches a kernel read is made with a provably positive length (O6); connsUnix has only its three writers and deleteConn's removal is identity-guarded (O7); the UDP session map is looked up and inserted with the same key, sessions are created and announced on the miss edge only (O8). Engine.Start publishes every engine field the poller loops read before it starts the first poller goroutine (O9); the one-shot re-arm registers with the kernel regardless of the isWAdded flag (O10); the count and error of the kernel read travel unchanged through readStream/readUDP, doRead, Read and ReadAndGetConn (O11). Every read of a read loop gets the whole buffer (O12); the short-count exit is taken for stream sockets only (O13); a hang-up event closes only after the synchronous loop, its bound lifted, has read what the peer sent (O14; the asynchronous case is an open known finding).",
 		NotCovered: "the lost-edge race of the gate under all schedules, kernel ET/ONESHOT semantics, CPU usage at quiescence, datagram boundaries (kernel), the configuration matrix as executions",
 		Run:        runC02,
 	})
@@ -79,6 +79,9 @@ func runC02(c *Ctx) {
 	c.Rule("C02.O9", "E4,E5", "Engine.Start: every engine field the poller loops read is assigned before the first poller goroutine is started (no go statement reaches a later store)", 1)
 	c.Rule("C02.O10", "E4", "ResetPollerEvent (the one-shot re-arm every read path relies on) registers with the kernel on both edges without consulting the isWAdded flag", 1)
 	c.Rule("C02.O11", "E4", "Read / ReadAndGetConn / doRead / readStream / readUDP hand the kernel's count and error through unchanged: no error is synthesised from a zero count (an empty datagram is not end-of-stream)", 5)
+	c.Rule("C02.O12", "E4", "every kernel read of a read loop gets the whole buffer: after *pbuf = (*pbuf)[:n] the buffer is restored to its capacity (or paid back and borrowed again) before the next read; a buffer left cut to a small count truncates the next datagram", 3)
+	c.Rule("C02.O13", "E7", "the short-count exit of a read loop is taken for stream sockets only (a short datagram does not mean the socket is drained)", 3)
+	c.Rule("C02.O14", "E4", "a hang-up event closes the connection only after what the peer sent before it was read: the synchronous loop's per-event bound is lifted under the hang-up flag, and the close is ordered after the read", 2)
 	c.Rule("C02.O8", "E4", "udpConn.getConn: same key for lookup and insert; session created, stored and announced on the miss edge only", 2)
 	c02Published(c)
 	c02PassThrough(c)
@@ -225,14 +228,20 @@ func runC02(c *Ctx) {
 					if b, ok := stripNot(i.Cond).(*ssa.BinOp); ok && b.Op == token.LSS && ir.Resolve(b.X) == rl.n {
 						if _, t := ir.StripNot(i.Cond, k == 0); t {
 							seen["short"] = true
-							again, _ := reachesRead(i, k, false)
-							if again {
-								bad = "a short read does not end the loop"
+							// followed along the stream-type edges only (O13 decides the type test)
+							vis, stopped := fi.ReachOpt([]ssa.Instruction{i}, func(in ssa.Instruction) bool {
+								return gate(in) || in == ssa.Instruction(rl.read) || c.isCallTo(in, "(*nbio.poller).getConn", "syscall.EpollWait")
+							}, func(i2 *ssa.If, k2 int) bool {
+								return (i2 == i && k2 != k) || c02NonStreamEdge(c, fi, i2, k2)
+							})
+							_ = vis
+							if stopped[rl.read] {
+								bad = "a short read on a stream socket does not end the loop"
 							}
 						}
 					}
 					// loop bound
-					if b, ok := stripNot(i.Cond).(*ssa.BinOp); ok && b.Op == token.LSS && c.P.LoadedField(ir.Resolve(b.Y)) == "nbio.Config.MaxConnReadTimesPerEventLoop" {
+					if b, ok := stripNot(i.Cond).(*ssa.BinOp); ok && b.Op == token.LSS && c02IsBound(c, b.Y) {
 						seen["bound"] = true
 					}
 				}
@@ -243,6 +252,174 @@ func runC02(c *Ctx) {
 				}
 			}
 			c.Cond(bad == "", "C02.O2", key, c.Pos(rl.read), "EINTR retry / EAGAIN leave / error close+leave / short leave / bounded", bad)
+		}
+	}
+
+	// ------------------------------------------------------------------ O12, O13
+	for _, rl := range loops {
+		fi := c.P.Info(rl.fn)
+		isShrink := func(in ssa.Instruction) bool {
+			st, ok := in.(*ssa.Store)
+			if !ok || ir.Resolve(st.Addr) != ir.Resolve(rl.pbuf) {
+				return false
+			}
+			sl, ok := ir.Resolve(st.Val).(*ssa.Slice)
+			return ok && sl.High != nil && ir.Resolve(sl.High) == rl.n
+		}
+		isRestore := func(in ssa.Instruction) bool {
+			if c.isCallTo(in, "(*nbio.Engine).payback", "(*nbio.Engine).borrow") {
+				return true
+			}
+			st, ok := in.(*ssa.Store)
+			if !ok || ir.Resolve(st.Addr) != ir.Resolve(rl.pbuf) {
+				return false
+			}
+			sl, ok := ir.Resolve(st.Val).(*ssa.Slice)
+			if !ok || sl.High == nil {
+				return false
+			}
+			_, isCap := ir.IsCapOf(ir.Resolve(sl.High))
+			return isCap
+		}
+		bad := ""
+		n := 0
+		for _, b := range rl.fn.Blocks {
+			for _, in := range b.Instrs {
+				if !isShrink(in) {
+					continue
+				}
+				n++
+				vis, _ := fi.Reach([]ssa.Instruction{in}, func(x ssa.Instruction) bool {
+					return isRestore(x) || c.isCallTo(x, "(*nbio.poller).getConn", "syscall.EpollWait")
+				})
+				if vis[rl.read] {
+					bad = "after the buffer is cut to the count at " + c.Pos(in) + " the next read (" + c.Pos(rl.read) + ") is reached without restoring it to its capacity: the pooled buffer shrinks for good, and a later, larger datagram is truncated to the earlier count"
+				}
+			}
+		}
+		if n == 0 {
+			bad = "no re-slice to the count found"
+		}
+		c.Cond(bad == "", "C02.O12", rl.name+": whole buffer for every read", c.Pos(rl.read), "restored / paid back before the next read", bad)
+
+		// O13
+		bad = ""
+		found := false
+		for _, i := range fi.Ifs() {
+			for k := 0; k < 2; k++ {
+				b, ok := stripNot(i.Cond).(*ssa.BinOp)
+				if !ok || b.Op != token.LSS || ir.Resolve(b.X) != rl.n {
+					continue
+				}
+				if _, t := ir.StripNot(i.Cond, k == 0); !t {
+					continue
+				}
+				found = true
+				// from the short-count edge, leaving the loop (not reading again, reaching the
+				// gate / the loop's exit) must not be possible along a non-stream edge ... i.e.
+				// every way out passes a stream-type test on its stream edge
+				vis, stopped := fi.ReachOpt([]ssa.Instruction{i}, func(in ssa.Instruction) bool {
+					if in == ssa.Instruction(rl.read) {
+						return true
+					}
+					// back at the loop's own bound test: the loop goes on
+					if i3, isIf := in.(*ssa.If); isIf {
+						if b3, ok := stripNot(i3.Cond).(*ssa.BinOp); ok && b3.Op == token.LSS && c02IsBound(c, b3.Y) {
+							return true
+						}
+					}
+					return false
+				}, func(i2 *ssa.If, k2 int) bool {
+					return (i2 == i && k2 != k) || c02StreamEdge(c, fi, i2, k2)
+				})
+				_ = stopped
+				// with the stream edges removed, the only continuation must be the next read
+				for in := range vis {
+					if in == ssa.Instruction(i) {
+						continue
+					}
+					if ir.IsExit(in) || c.isCallTo(in, "sync/atomic.AddInt32", "(*nbio.Conn).ResetPollerEvent", "syscall.EpollWait", "(*nbio.poller).getConn") {
+						bad = "a short count ends the loop for every socket type (" + c.Pos(i) + "): after one short datagram the remaining datagrams stay in the socket, and in edge-triggered mode no further event announces them"
+					}
+				}
+			}
+		}
+		if !found {
+			c.OK("C02.O13", rl.name+": short-count exit for streams only", c.Pos(rl.read), "no short-count exit (reads until EAGAIN)")
+		} else {
+			c.Cond(bad == "", "C02.O13", rl.name+": short-count exit for streams only", c.Pos(rl.read), "the exit is behind typ == TCP || typ == Unix", bad)
+		}
+	}
+
+	// ------------------------------------------------------------------ O14
+	if rw := c.Fn("C02.O14", "(*nbio.poller).readWriteLoop"); rw != nil {
+		fi := c.P.Info(rw)
+		errMask := c.pkgConstInt("nbio", "epollEventsError")
+		isHupFact := func(ft ir.Fact) bool {
+			e, zero, ok := ir.ZeroTest(ft.Cond, ft.Truth)
+			if !ok || zero {
+				return false
+			}
+			b, isB := ir.Resolve(e).(*ssa.BinOp)
+			if !isB || b.Op != token.AND {
+				return false
+			}
+			k, isK := ir.ConstInt(b.Y)
+			return isK && k == errMask
+		}
+		// the close under the hang-up flag
+		var hupClose ssa.Instruction
+		for _, cs := range c.P.CallsNamed(rw, "(*nbio.Conn).closeWithError") {
+			if fi.HasFact(cs.In, isHupFact) {
+				hupClose = cs.In
+			}
+		}
+		if hupClose == nil {
+			c.Unres("C02.O14", "hang-up close", "closeWithError under ev.Events & epollEventsError != 0 not found")
+		} else {
+			// sync loop
+			for _, rl := range loops {
+				if rl.fn != rw {
+					continue
+				}
+				bad := "the loop bound was not found"
+				for _, i := range fi.Ifs() {
+					b, ok := stripNot(i.Cond).(*ssa.BinOp)
+					if !ok || b.Op != token.LSS || !c02IsBound(c, b.Y) || !fi.CanReach(i, rl.read) || !fi.InLoop(i) {
+						continue
+					}
+					bad = ""
+					lifted := false
+					if ph, isPhi := ir.Resolve(b.Y).(*ssa.Phi); isPhi {
+						for k, e := range ph.Edges {
+							if v, isK := ir.ConstInt(e); isK && v >= 1<<30 {
+								pred := ph.Block().Preds[k]
+								for _, ft := range fi.FactsOnEdge(pred, ph.Block()) {
+									if isHupFact(ft) {
+										lifted = true
+									}
+								}
+							}
+						}
+					}
+					if !lifted {
+						bad = "the synchronous read loop is bounded by MaxConnReadTimesPerEventLoop also when the event carries a hang-up flag, and the connection is closed right after it (" + c.Pos(hupClose) + "): whatever the peer sent beyond that many buffers before it closed is never delivered"
+					}
+				}
+				if !fi.CanReach(rl.read, hupClose) {
+					bad = "the hang-up close is not ordered after the synchronous read"
+				}
+				c.Cond(bad == "", "C02.O14", rl.name+": drained before the hang-up close", c.Pos(rl.read), "bound lifted under the hang-up flag, close after the loop", bad)
+			}
+			// async dispatch
+			for _, cs := range c.P.CallsNamed(rw, "(*nbio.Conn).AsyncRead") {
+				if fi.CanReach(cs.In, hupClose) {
+					c.Bad("C02.O14", "(*nbio.poller).readWriteLoop: hang-up close after the async read task", c.Pos(cs.In),
+						"in asynchronous-read mode the poller schedules the read task and then closes the connection on the same hang-up event ("+c.Pos(hupClose)+") without waiting for the task: bytes the peer sent before it closed can be lost")
+				} else {
+					c.OK("C02.O14", "(*nbio.poller).readWriteLoop: hang-up close after the async read task", c.Pos(cs.In), "the close is not reachable from the dispatch")
+				}
+			}
 		}
 	}
 
@@ -871,3 +1048,63 @@ func c02PassThrough(c *Ctx) {
 		c.Cond(bad == "", "C02.O11", fnKey(c.P, fn, "count and error passed through"), c.FnPos(fn), fmt.Sprintf("%d return(s) hand the results of %v through", n, sp.sources), bad)
 	}
 }
+
+// c02IsBound: the value is the configured per-event read bound, possibly lifted through a local.
+func c02IsBound(c *Ctx, v ssa.Value) bool {
+	const f = "nbio.Config.MaxConnReadTimesPerEventLoop"
+	r := ir.Resolve(v)
+	if c.P.LoadedField(r) == f {
+		return true
+	}
+	if ph, ok := r.(*ssa.Phi); ok {
+		for _, e := range ph.Edges {
+			if c.P.LoadedField(ir.Resolve(e)) == f {
+				return true
+			}
+		}
+	}
+	return false
+}
+
+// c02TypEdge classifies the edge of a test of Conn.typ against the two stream types:
+// +1 the edge implies a stream type, -1 it excludes both, 0 otherwise.
+func c02TypEdge(c *Ctx, fi *ir.FnInfo, i *ssa.If, k int) int {
+	tcp, unix := c.pkgConstInt("nbio", "ConnTypeTCP"), c.pkgConstInt("nbio", "ConnTypeUnix")
+	cnd, truth := ir.StripNot(i.Cond, k == 0)
+	cmp, ok := ir.DecodeIntCmp(cnd)
+	if !ok || c.P.LoadedField(cmp.Expr) != "nbio.Conn.typ" {
+		return 0
+	}
+	possible := map[int64]bool{tcp: true, unix: true}
+	other := true // some non-stream type still possible
+	apply := func(cmp ir.IntCmp, truth bool) {
+		for v := range possible {
+			if cmp.Holds(v) != truth {
+				delete(possible, v)
+			}
+		}
+		// does the fact pin the value to a stream type?
+		if truth && !cmp.NotEq && cmp.TrueSet.Lo == cmp.TrueSet.Hi && (cmp.TrueSet.Lo == tcp || cmp.TrueSet.Lo == unix) {
+			other = false
+		}
+		if !truth && cmp.NotEq && cmp.TrueSet.Lo == cmp.TrueSet.Hi && (cmp.TrueSet.Lo == tcp || cmp.TrueSet.Lo == unix) {
+			other = false
+		}
+	}
+	apply(cmp, truth)
+	for _, ft := range fi.Facts(i) {
+		if c2, ok := ir.DecodeIntCmp(ft.Cond); ok && c.P.LoadedField(c2.Expr) == "nbio.Conn.typ" {
+			apply(c2, ft.Truth)
+		}
+	}
+	switch {
+	case len(possible) == 0:
+		return -1
+	case !other:
+		return +1
+	}
+	return 0
+}
+
+func c02NonStreamEdge(c *Ctx, fi *ir.FnInfo, i *ssa.If, k int) bool { return c02TypEdge(c, fi, i, k) < 0 }
+func c02StreamEdge(c *Ctx, fi *ir.FnInfo, i *ssa.If, k int) bool    { return c02TypEdge(c, fi, i, k) > 0 }
